@@ -248,7 +248,7 @@ def compress(ops):
     return [{"op": "build", "ts": [o["t"] for o in ops[:k]], "calls": calls, "obs": ops[-1]["obs"]}]
 
 
-def guarded(plan, limit=10):
+def guarded(plan, limit=20):
     """replay under a time limit; returns ("ok", ops) | ("timeout", None) | ("raise", repr)."""
     try:
         with time_limit(limit):
@@ -540,7 +540,7 @@ def bind(ctx, label, kind, salt, items, n, pool, workers):
         if confirmed:
             for tid, status, plan in late:
                 if status == "timeout":
-                    ctx.violation("impl-nonterminating", "building/querying a task network does not return (10 s, confirmed with 90 s)", {"plan": plan})
+                    ctx.violation("impl-nonterminating", "building/querying a task network does not return (20 s, confirmed with 90 s)", {"plan": plan})
             ctx.notes["cases_skipped_after_timeouts"] = ctx.notes.get("cases_skipped_after_timeouts", 0) + sum(1 for x in late if x[1] == "skipped")
         else:
             # spurious: run everything that is still open in this process
@@ -661,7 +661,7 @@ def run(ctx):
         jobs += [dict(n=4, fam="mixed", hi=4095, rounds=6)]
         jobs += [dict(n=5, fam="rel", lo=k * 65536, hi=(k + 1) * 65536 - 1) for k in range(16)]
         jobs += [dict(n=5, fam="loop", hi=(1 << 20) - 1, step=16)]
-        jobs += [dict(n=5, fam="mixed", hi=(1 << 20) - 1, step=8)]
+        jobs += [dict(n=5, fam="mixed", hi=(1 << 20) - 1, step=16)]
     small_jobs = [j for j in jobs if j["n"] <= 3 or j["fam"] == "devs"]
     big_jobs = [j for j in jobs if j not in small_jobs]
     par = 6 if q else 8
